@@ -135,14 +135,15 @@ impl Bytes {
     }
     #[cfg(feature = "alloc")]
     pub fn to_alloc_vec(&self) -> std::vec::Vec<u8> {
-        let mut v = std::vec::Vec::with_capacity(BCAP);
+        // one allocation of constant size, indexed writes, then a length cut: `push` on a heap
+        // vector costs the symbolic executor minutes per element
+        let mut v = std::vec![0u8; BCAP];
         let mut i = 0;
-        while i < BCAP {
-            if i < self.0.len {
-                v.push(self.0.d[i]);
-            }
+        while i < self.0.len && i < BCAP {
+            v[i] = self.0.d[i];
             i += 1;
         }
+        v.truncate(self.0.len);
         v
     }
 }
